@@ -257,7 +257,6 @@ def enabled (tbl : List (α × α)) (locked : Bool) (s : St α) : Label α → B
   | .put _ => true
   | .selfRelease i => s.closing && decide (i < s.nextId)
   | .timeout i => decide (i < s.nextId) && !s.timedOut.contains i
-      && !(s.delivered.map (·.1.id)).contains i && !s.released.contains i
   | .txGet => s.txHold.isNone && s.txTest.isNone && s.txOut.isNone && !s.txq.isEmpty
   | .txTest parked =>
     match s.txHold with
@@ -270,7 +269,7 @@ def enabled (tbl : List (α × α)) (locked : Bool) (s : St α) : Label α → B
   | .rxRead => s.rxLine.isNone && s.rxSet.isNone && s.rxHold.isEmpty && !s.wireIn.isEmpty
   | .rxMatch found =>
     match s.rxLine with
-    | some l => s.rxSet.isNone && lockFree locked s && (found == (matchEntry tbl s l).map (·.id))
+    | some l => s.rxSet.isNone && (l.event || lockFree locked s) && (found == (matchEntry tbl s l).map (·.id))
     | none => false
   | .rxSetEvent => s.rxSet.isSome
   | .rxRequeue => s.rxSet.isNone && !s.rxHold.isEmpty
